@@ -48,7 +48,7 @@ ASSUMPTIONS = [
     "semantics (sim/procstate.py); other module-level state is shared between simulated processes",
     "the 'fresh' reference is the same library on a cache stripped of trees and binning files",
 ]
-PROBES = ["rebuild_same_nbins", "closed_side_switch", "binned_to_unbinned", "unbinned_to_binned", "forced_rebuild", "measure_after_foreign_build", "reopen", "op_under_parallel_schedule"]
+PROBES = ["rebuild_same_nbins", "closed_side_switch", "binned_to_unbinned", "unbinned_to_binned", "forced_rebuild", "measure_after_foreign_build", "reopen", "op_under_parallel_schedule", "second_handle_used"]
 REAL_VS_STUB = dict(real="all of yaw (sequential), pickle, tmpfs", stub="none (Hypothesis generates the history)")
 
 # binning pool built to collide
@@ -98,8 +98,12 @@ def shrinks(case: dict):
             yield ["build", op[1], op[2], False, *op[4:]]
         if op[0] == "cross" and op[2] != 2:
             yield ["cross", op[1], 2, *op[3:]]
-        if len(op) >= 2 and isinstance(op[-2], int) and op[-2] > 1 and op[0] in ("build", "cross", "auto", "hist", "reopen"):
-            yield [*op[:-2], 1, 0]  # sequential instead of parallel
+        nargs = dict(build=5, cross=4, auto=4, hist=4, reopen=3)[op[0]]
+        core, handle = list(op[: 1 + nargs]), (op[1 + nargs] if len(op) > 1 + nargs else 0)
+        if core[-2] > 1:
+            yield [*core[:-2], 1, 0, handle]  # sequential instead of parallel
+        if handle:
+            yield [*core, 0]
 
     for h in shrink_history(hist, simplify):
         c = copy.deepcopy(case)
@@ -156,8 +160,18 @@ class Model:
         procstate.install()  # one session: fresh process-local memo caches
         self.paths = scenes.copy_scene(tpl, os.path.join(root, "state"))
         with scenes.sequential_mode():
-            self.cats = {n: yaw.Catalog(self.paths[n], max_workers=1) for n in scenes.CATS}
+            # two live handles on every cache directory: state remembered on a handle must not
+            # vouch for what another handle (or another process) did to the cache in between
+            self.handles = [
+                {n: yaw.Catalog(self.paths[n], max_workers=1) for n in scenes.CATS} for _ in range(2)
+            ]
+        self.cats = self.handles[0]
         self.last_binning: dict[str, object] = {}
+        # catalogs on which an operation *raised* while pool workers were running: Pool.__exit__
+        # terminates workers in the middle of their task, i.e. that cache went through a crash.
+        # What a crash may leave behind is C08's business (error or correct result at next use);
+        # the staleness invariant is not evaluated on such a cache any more.
+        self.dirty: set[str] = set()
 
     # ---- fresh reference on data-only caches
     def _fresh(self, key: tuple, fn):
@@ -187,7 +201,12 @@ class Model:
 
     def apply(self, op: list) -> None:
         self.ops.append(list(op))
-        getattr(self, "op_" + op[0])(*op[1:])
+        nargs = dict(build=5, cross=4, auto=4, hist=4, reopen=3)[op[0]]
+        handle = op[1 + nargs] if len(op) > 1 + nargs else 0
+        self.cats = self.handles[handle]
+        if handle:
+            self.rec.probe("second_handle_used")
+        getattr(self, "op_" + op[0])(*op[1 : 1 + nargs])
         self._invariant(op)
 
     def _exec(self, fn, workers: int, seed: int, label: str):
@@ -249,6 +268,8 @@ class Model:
             raise
         except Exception:  # noqa: BLE001 - e.g. unbound local for an empty patch: not a verdict
             self.last_binning[name] = "none"
+            if workers > 1:
+                self.dirty.add(name)
             return
         self._note_transition(name, None if b is None else (list(b[0]), b[1]))
 
@@ -262,7 +283,9 @@ class Model:
         except HistoryViolation:
             raise
         except Exception as err:  # noqa: BLE001
-            if status == "raises":
+            if workers > 1:
+                self.dirty.update(scenes.CATS)  # workers were terminated mid-task
+            if status == "raises" or self.dirty:
                 return
             raise HistoryViolation(
                 dict(property=PROP, failing_rule=label, outcome="raises", exc=type(err).__name__),
@@ -350,6 +373,8 @@ class Model:
         from yaw.catalog.trees import BinnedTrees, build_trees
 
         for name, cat in self.cats.items():
+            if name in self.dirty:
+                continue
             for pid, patch in cat.items():
                 bfile = os.path.join(str(patch.cache_path), "binning")
                 if not os.path.exists(bfile):
@@ -386,6 +411,7 @@ def _machine_factory(case: dict, tpl: str, root: str, fresh: dict, rec: Recorder
     pool = st.integers(0, len(POOL) - 1)
     nworkers = st.sampled_from([1, 1, 1, 2, 3])
     seeds = st.integers(0, 1 << 16)
+    handles = st.sampled_from([0, 0, 1])
 
     class Machine(RuleBasedStateMachine):
         def __init__(self) -> None:
@@ -400,25 +426,25 @@ def _machine_factory(case: dict, tpl: str, root: str, fresh: dict, rec: Recorder
                 rec.last_failure = (list(self.model.ops), err)
                 raise
 
-        @rule(name=names, b=st.one_of(st.none(), pool), force=st.sampled_from([False, False, False, True]), w=nworkers, s=seeds)
-        def build(self, name, b, force, w, s):
-            self._do(["build", name, b, force, w, s if w > 1 else 0])
+        @rule(name=names, b=st.one_of(st.none(), pool), force=st.sampled_from([False, False, False, True]), w=nworkers, s=seeds, h=handles)
+        def build(self, name, b, force, w, s, h):
+            self._do(["build", name, b, force, w, s if w > 1 else 0, h])
 
-        @rule(b=pool, randoms=st.sampled_from([1, 2, 3]), w=nworkers, s=seeds)
-        def cross(self, b, randoms, w, s):
-            self._do(["cross", b, randoms, w, s if w > 1 else 0])
+        @rule(b=pool, randoms=st.sampled_from([1, 2, 3]), w=nworkers, s=seeds, h=handles)
+        def cross(self, b, randoms, w, s, h):
+            self._do(["cross", b, randoms, w, s if w > 1 else 0, h])
 
-        @rule(b=pool, which=st.sampled_from([0, 0, 1]), w=nworkers, s=seeds)
-        def auto(self, b, which, w, s):
-            self._do(["auto", b, which, w, s if w > 1 else 0])
+        @rule(b=pool, which=st.sampled_from([0, 0, 1]), w=nworkers, s=seeds, h=handles)
+        def auto(self, b, which, w, s, h):
+            self._do(["auto", b, which, w, s if w > 1 else 0, h])
 
-        @rule(name=names, b=pool, w=nworkers, s=seeds)
-        def hist(self, name, b, w, s):
-            self._do(["hist", name, b, w, s if w > 1 else 0])
+        @rule(name=names, b=pool, w=nworkers, s=seeds, h=handles)
+        def hist(self, name, b, w, s, h):
+            self._do(["hist", name, b, w, s if w > 1 else 0, h])
 
-        @rule(name=names, w=nworkers, s=seeds)
-        def reopen(self, name, w, s):
-            self._do(["reopen", name, w, s if w > 1 else 0])
+        @rule(name=names, w=nworkers, s=seeds, h=handles)
+        def reopen(self, name, w, s, h):
+            self._do(["reopen", name, w, s if w > 1 else 0, h])
 
         def teardown(self):
             from sim import procstate
